@@ -446,6 +446,13 @@ def PredRecord.ofConfig (rate : α → α → α) (su : SpeedUnit) (gu : GradeUn
 def Battery.ofConfig (capacity : α) (unit : EnergyUnit) : Battery α :=
   { capacity := capacity, startEnergy := capacity, unit := unit }
 
+/-- a configuration the builders cannot read — unknown vehicle or time-model type, a missing required
+entry (battery capacity, a PHEV's charge-depleting section, the grade unit, the vehicle list, …), a
+file that does not exist or does not parse, an invalid cache policy — does not build
+(`TraversalModelError::BuildError`); which entry is wrong does not matter -/
+def configReadable (malformed : Bool) : Except Err Unit :=
+  if malformed then .error .build else .ok ()
+
 /-- the `model_name` entry of the query -/
 inductive NameQuery where
   | absent
